@@ -14,7 +14,8 @@ from . import common as C
 
 ID = "C17"
 DRIVER = "drv_c17"
-GEN = ["guardrails"]
+GEN = ["guardrails", "py_utils", "py_guard"]
+EXTRA_PROP_FILES = ["Props/C17Gen.lean"]
 STREAMS = {
     "ff": {"relevant": True, "desc": "BeaconConfig.from_bytes(payload): guardrails metadata + config block / ValueError"},
     "ffx": {"relevant": True, "desc": "BeaconConfig.from_bytes(XorEncoded container of payload); model runs on the decoded view"},
@@ -22,6 +23,7 @@ STREAMS = {
     "scan": {"relevant": True, "desc": "iter_guardrail_configs(BytesIO(payload), xorkey): offsets, unmasked guard config, settings, checksum"},
     "cands": {"relevant": False, "desc": "find_xor_key_candidates(BytesIO(data)) with io.DEFAULT_BUFFER_SIZE patched (Counter/most_common model)"},
     "cks": {"relevant": False, "desc": "payload_checksum(data)"},
+    "g-cks": {"relevant": False, "desc": "payload_checksum translated from its source text (Gen/PyGuard.lean) vs the function"},
 }
 TRUSTED = [
     "tools/harness/c17.py (independent builder, generators, adapters, oracle); line protocol parsing in lean/CsVerif/Driver/C17.lean",
@@ -265,6 +267,8 @@ def _impl(stream, line):
         return " ".join([str(len(cs))] + [C.hx(c) for c in cs])
     if stream == "cks":
         return str(G.payload_checksum(C.unhx(w[1])))
+    if stream == "g-cks":
+        return "ok " + str(G.payload_checksum(C.unhx(w[1])))
     raise RuntimeError("unknown stream " + stream)
 
 
@@ -390,7 +394,7 @@ def oracle(stream, line, out):
 
 
 def nontrivial(stream, line, out):
-    if stream in ("cands", "cks"):
+    if stream in ("cands", "cks", "g-cks"):
         return line.split()[1] != "x"
     if stream in ("ff", "ffx"):
         return out.startswith("ok ")
@@ -762,6 +766,8 @@ def gen(tier, rng, shard, nshards):
             continue
         n = rng.choice([0, 1, 2, 3, 4, 5, 6, 7, 100, 1000, 6144])
         yield "cks", f"cks {C.hx(C.rbytes(rng, n))}"
+        if n <= 3000:
+            yield "g-cks", f"gcks {C.hx(C.rbytes(rng, n))}"
     if mine():
         yield "cks", f"cks {C.hx(bytes([255]) * 140000)}"  # exercises the modulus 99999999
     if mine():
